@@ -149,8 +149,16 @@ pub fn run<F: Fn(usize) -> (Vec<u8>, bool)>(n: usize, per_child: usize, deadline
             if off + 8 + len > buf.len() {
                 break;
             }
-            assert_eq!(idx, next, "frame order");
-            out.push(Outcome::Done(buf[off + 8..off + 8 + len].to_vec()));
+            if idx != next {
+                // a child whose heap is corrupted may write anything: treat it as having died in `next`
+                break;
+            }
+            let payload = &buf[off + 8..off + 8 + len];
+            // every engine reports JSON; a child with a corrupted heap may report garbage
+            if serde_json::from_slice::<serde_json::Value>(payload).is_err() {
+                break;
+            }
+            out.push(Outcome::Done(payload.to_vec()));
             next += 1;
             off += 8 + len;
         }
